@@ -15,9 +15,9 @@ const (
 	SInt SortKind = iota
 	SReal
 	SBool
-	SStr  // uninterpreted sort for strings
-	SU    // uninterpreted sort for everything opaque (errors, interfaces, pointers ...)
-	SArr  // (Array idx elem)
+	SStr // uninterpreted sort for strings
+	SU   // uninterpreted sort for everything opaque (errors, interfaces, pointers ...)
+	SArr // (Array idx elem)
 )
 
 type Sort struct {
@@ -66,8 +66,8 @@ func (s *Sort) Eq(o *Sort) bool {
 
 // Term is an SMT term. Terms are immutable after construction.
 type Term struct {
-	Op   string  // "const" (symbol), "lit", or an SMT operator / function symbol
-	Name string  // symbol name for const, literal text for lit
+	Op   string // "const" (symbol), "lit", or an SMT operator / function symbol
+	Name string // symbol name for const, literal text for lit
 	Args []*Term
 	S    *Sort
 	// quantifiers: Op == "forall"/"exists", Bound are the bound symbols, Args[0] the body
@@ -546,14 +546,14 @@ func ratString(r *big.Rat, s *Sort) string {
 }
 
 type printer struct {
-	ufmul   bool // print products/quotients of two non-literal terms as uninterpreted functions
-	noPoly  bool // (internal) the next term is an atom: do not normalise it itself
-	defs    map[string]*Term // definitions of named scalars (for polynomial expansion)
+	ufmul       bool             // print products/quotients of two non-literal terms as uninterpreted functions
+	noPoly      bool             // (internal) the next term is an atom: do not normalise it itself
+	defs        map[string]*Term // definitions of named scalars (for polynomial expansion)
 	inlineDepth int
-	sb      *strings.Builder
-	syms    map[string]*Term // const symbols encountered
-	funs    map[string]*Term // uninterpreted function applications (first seen)
-	strLits map[string]bool
+	sb          *strings.Builder
+	syms        map[string]*Term // const symbols encountered
+	funs        map[string]*Term // uninterpreted function applications (first seen)
+	strLits     map[string]bool
 }
 
 var builtinOps = map[string]bool{
